@@ -392,9 +392,16 @@ func (c *rawScn) step(st string) {
 		})
 	case "rq":
 		// ReadQLen changed (the scenarios do it when nothing is queued); sockets without the option are left alone
+		// The line is recorded BEFORE the call, as "drop" is: the step starts from quiescence, so nothing else records
+		// until the new queue is in place, and a call the change wakes (a Send that XREQ / XPAIR give up on a resize, a
+		// Recv that moves to the new queue) records its return after it.  Recorded after the call, the line raced with
+		// the "ret" of the calls the change itself had woken, and a trace with the two swapped is not a behaviour.
 		n, _ := strconv.Atoi(arg(1))
-		if err := c.sock.SetOption(mangos.OptionReadQLen, n); err == nil {
+		if _, err := c.sock.GetOption(mangos.OptionReadQLen); err == nil {
 			s.Rec.Emit("setrq", "n", n)
+			if err := c.sock.SetOption(mangos.OptionReadQLen, n); err != nil {
+				s.Rec.Emit("setrqfail", "n", n, "r", err) // the option is there and n >= 0: no specification action explains a refusal
+			}
 		}
 	case "inj":
 		if p := c.pipes[arg(1)]; p != nil && !p.IsClosed() {
